@@ -3,6 +3,7 @@ CONSTANTS
   Procs = {"g1", "g2"}
   Types = {"A", "B"}
   MaxCalls = 1
+  EarlyUnlock = FALSE
   Locked = FALSE
   Emit = TRUE
 CONSTRAINT EmitSched
